@@ -55,6 +55,59 @@ func ohitHooks(sr *sqlRoots, name string, hooks *absint.Hooks) {
 			e.Havoc(st, ghostTok, "class")
 		}
 	}
+	prevT := hooks.Templates
+	hooks.Templates = func(e *absint.Engine, j *absint.State, jfr *absint.Frame) []absint.Lin {
+		var out []absint.Lin
+		if prevT != nil {
+			out = prevT(e, j, jfr)
+		}
+		rc := sr.getCtx(name)
+		if rc == nil {
+			return out
+		}
+		both := func(l absint.Lin) { out = append(out, l, l.Neg()) }
+		length := absint.StrLenOf(rc.In)
+		var end absint.Lin
+		haveEnd := false
+		if pc, ok := e.CellOf(j, ghostTok, "P"); ok {
+			if lc, ok2 := e.CellOf(j, ghostTok, "L"); ok2 {
+				pi, isP := pc.(absint.IntV)
+				li, isL := lc.(absint.IntV)
+				if isP && isL {
+					end, haveEnd = pi.L.Add(li.L), true
+					both(end.Sub(length))
+					if fc, ok3 := e.CellOf(j, ghostTok, "first"); ok3 {
+						if fi, isI := fc.(absint.IntV); isI {
+							both(fi.L.Sub(pi.L))
+						}
+					}
+				}
+			}
+		}
+		var ret absint.Lin
+		haveRet := false
+		if rv, has := e.PendingRet(j, jfr); has {
+			if iv, isI := rv.(absint.IntV); isI {
+				ret, haveRet = iv.L, true
+				both(ret.Sub(length))
+			}
+		}
+		for _, h := range e.Hits(j) {
+			if h.Hay.Const != nil || h.Hay.Root != rc.In.Root {
+				continue
+			}
+			hpos := h.Hay.Lo.Sub(rc.In.Lo).Add(absint.SymLin(h.R))
+			out = append(out, absint.SymLin(h.R).Neg(), absint.SymLin(h.R).AddK(1)) // r ≥ 0 / r ≤ -1
+			if haveEnd {
+				both(end.Sub(hpos))
+			}
+			if haveRet {
+				both(ret.Sub(hpos).Sub(h.Needle))
+				out = append(out, hpos.Add(h.Needle).Sub(ret))
+			}
+		}
+		return out
+	}
 	prevSearch, prevEdge := hooks.OnSearch, hooks.OnHeadEdge
 	var smu sync.Mutex
 	searchCalls := map[int64]*ssa.Call{}
